@@ -89,6 +89,13 @@ def h_exact(E, n, edges):
     for (u, v), f in same.items():
         bad.append(NOT(f) if idx.get(u) == idx.get(v) else f)
     E.check(OR(bad), "orbits-are-the-exchangeability-classes", info)
+    # a second analysis object read in the other order: orbits (and anchor) first, the count afterwards
+    b = Automorphism(g)
+    orbits_b = [frozenset(o) for o in b.orbits]
+    _ = b.anchor_component
+    n_b = b.n_automorphisms
+    E.check(OR(NOT(EQ(count, n_b)), sorted(map(sorted, orbits_b)) != sorted(map(sorted, orbits))),
+            "result-depends-on-the-order-in-which-the-properties-are-read", dict(info, count_after_orbits=n_b))
     E.note(nontrivial=n_aut > 1)
     E.observe((n_aut, sorted(sorted(o) for o in orbits)))
 
@@ -189,13 +196,20 @@ def h_pruning(E, k, hn, hedges, invert):
     E.observe((n_p, n_u))
 
 
+def h_pruning_history(E, k, hn, hedges, invert):
+    from harness.c05 import h_history
+
+    h_history(E, k, hn, hedges, invert)
+
+
 def h_pruning_family(E, family, invert):
     from harness.c05 import h_family
 
     h_family(E, family, invert)
 
 
-HARNESSES = {"exact": h_exact, "est": h_est, "dedup": h_dedup, "pruning": h_pruning, "pruning_family": h_pruning_family}
+HARNESSES = {"exact": h_exact, "est": h_est, "dedup": h_dedup, "pruning": h_pruning, "pruning_family": h_pruning_family,
+             "pruning_history": h_pruning_history}
 
 
 def shards(tier, seed):
@@ -218,6 +232,8 @@ def shards(tier, seed):
             if hn == 3:
                 sh.append(dict(h="pruning", params=dict(k=3, hn=hn, hedges=es, invert=(len(es) % 2 == 0))))
     sh.append(dict(h="pruning_family", params=dict(family="2+2", invert=False)))
+    for es in all_shapes(3):
+        sh.append(dict(h="pruning_history", params=dict(k=3, hn=3, hedges=es, invert=(len(es) % 2 == 1))))
     sh.append(dict(h="dedup", params=dict(k=2, with_host=True)))
     sh.append(dict(h="dedup", params=dict(k=2, with_host=False)))
     if tier == "thorough":
